@@ -315,6 +315,10 @@ func IsAvailable(name string) bool {
 	if !parentExpired(ctx, 0, fragments) {
 		return false
 	}
+	if l == 1 {
+		// Expired TLD, it has no parent that could hold conflicting records.
+		return true
+	}
 	return len(getParentConflictingRecord(ctx, name, fragments)) == 0
 }
 
